@@ -349,6 +349,7 @@ impl Chip126x {
             preamble: u16::from_be_bytes([self.pkt_params[0], self.pkt_params[1]]),
             // powers below the row's anchor lower SetTxParams one for one; above it the PA saturates at the row's maximum
             power_dbm: row.map(|(max, at_max)| (max - (at_max - p)).min(max)),
+            sync: u16::from_be_bytes([self.regs[0x0740], self.regs[0x0741]]),
         }
     }
 
